@@ -22,14 +22,15 @@ def run(name, seed):
     # remember anything of the earlier model
     e3 = c.make()
     try:
-        e3.fit(dc(c.X2), **dc(c.tr2_kw if c.tr2_kw else c.fit_kw))
-        e3.transform(dc(c.X2), **dc(c.tr2_kw))
-        e3.transform(dc(c.X), **dc(c.tr_kw))
+        # keyword objects (e.g. the `vectors` array) are deliberately the SAME objects in every call of this history
+        e3.fit(dc(c.X2), **(c.tr2_kw if c.tr2_kw else c.fit_kw))
+        e3.transform(dc(c.X2), **c.tr2_kw)
+        e3.transform(dc(c.X), **c.tr_kw)
     except Exception:
         pass
     try:
-        A3 = e3.fit_transform(dc(c.X), **dc(c.fit_kw))
-        B3 = e3.transform(dc(c.X), **dc(c.tr_kw))
+        A3 = e3.fit_transform(dc(c.X), **c.fit_kw)
+        B3 = e3.transform(dc(c.X), **c.tr_kw)
         d3 = zoo.diff(ca, zoo.canon(A3), c.exact, c.rtol) or zoo.diff(cb, zoo.canon(B3), c.exact, c.rtol)
         out["refit_diff"] = d3
     except Exception as e:
